@@ -1729,7 +1729,7 @@ def make_syntax_oracle(pipe: pl.Pipeline) -> Any:
 # not UTF-8, a lone continuation, unterminated strings, one very long line / name — the inputs "nobody wrote down" at the small end
 BOUNDARY_TEXTS: list[str | bytes] = ['', '\n', '\n\n\n', ' ', '    ', '\t\n', '# c', '# c\n', '\ufeffa = 1\n', 'a = 1\r\n', 'a = 1\rb = 2\n', '\x0c', 'a = 1\n\x0c\nb = 2\n', '\x00', '\x1a',
 	'\u2028', 'a\xa0= 1\n', 'pass', '\\\n', '\\', 'a = 1 \\', '"""', "'", ';', 'a = 1;', '...', 'a: int\n', 'if True:\n', '\tpass\n', 'a = 1\n\n\n\n   ',
-	b'\xff\xfe', b'\xef\xbb\xbf', b'\xef\xbb\xbfa = 1\n', b'a = "\xe7\xb5"\n', b'\x80', 'a = ' + '1 + ' * 3000 + '1\n', 'x' * 100000 + ' = 1\n']
+	b'\xff\xfe', b'\xef\xbb\xbf', b'\xef\xbb\xbfa = 1\n', b'a = "\xe7\xb5"\n', b'\x80', 'x' * 100000 + ' = 1\n']
 
 
 def fuzz_inputs(ctx: Ctx) -> list[tuple[str, str, str | bytes]]:
@@ -1745,7 +1745,7 @@ def fuzz_inputs(ctx: Ctx) -> list[tuple[str, str, str | bytes]]:
 			out.append(('corpus', m, data))
 	for m in both:
 		out.append(('witness-F3', m, F3_WITNESS))
-		for b in BOUNDARY_TEXTS:
+		for b in [*BOUNDARY_TEXTS, 'a = ' + '1 + ' * ctx.scale(200, 3000) + '1\n']:  # one long line: ~1 ms per term
 			out.append(('boundary', m, b))
 	seeds = list(gen.VALID_PROGRAMS) + [s for _, s in gen.fixture_programs()]
 	chunks = [s for _, s in gen.big_fixture_chunks()]
